@@ -307,3 +307,40 @@ Example C15_ex_registry_roundtrip_prefix :
     = Ok {| h_T := bs "decimal"; h_attrs := [{| a_K := bs "precision"; a_V := AInt 10 |}] |} /\
   hcl_eval [s] (HCall (bs "decimal") [AInt 10; AInt 2; AInt 3]) = Err.
 Proof. vm_compute. repeat split; reflexivity. Qed.
+
+(** ... and the variadic argument alone (enum("a","b"), set("x")): a spec whose only attribute is a
+    slice, for every non-empty value list. *)
+Theorem C15_registry_roundtrip_variadic_partial :
+  forall reg fmt spec a l,
+    nodup_b (map ts_T reg) = true -> nodup_b (map ts_name reg) = true -> In spec reg ->
+    ts_fmt_custom spec = false ->
+    ts_attrs spec = [a] -> kind_eqb (ta_kind a) KSlice = true -> bytes_eqb (ta_name a) unsigned_name = false ->
+    l <> [] ->
+    let typ := {| h_T := ts_T spec; h_attrs := [{| a_K := ta_name a; a_V := AList l |}] |} in
+    hcl_type reg fmt typ = Ok (PExpr (HCall (ts_name spec) (map AStr l))) /\
+    hcl_eval reg (HCall (ts_name spec) (map AStr l)) = Ok typ.
+Proof. exact RegistryRoundtrip.variadic_roundtrip. Qed.
+Print Assumptions C15_registry_roundtrip_variadic_partial.
+
+(** Coverage (finite, re-checked on every run): every spec of the three dumped registries has one of
+    the two argument shapes of the lemmas above -- no variadic function argument (bare / positional /
+    prefix) with distinct names, or a single variadic attribute. *)
+Definition spec_shape_ok (s : TypeSpec) : bool :=
+  (forallb (fun p => negb (kind_eqb (ta_kind p) KSlice)) (type_func_args s) && nodup_b (map ta_name (type_func_args s)))
+  || match ts_attrs s with
+     | [a] => kind_eqb (ta_kind a) KSlice && negb (bytes_eqb (ta_name a) unsigned_name)
+     | _ => false
+     end.
+Theorem C15_registry_shapes :
+  forallb spec_shape_ok registry_sqlite = true /\
+  forallb spec_shape_ok registry_mysql = true /\
+  forallb spec_shape_ok registry_postgres = true.
+Proof. vm_compute. auto. Qed.
+Print Assumptions C15_registry_shapes.
+
+Example C15_ex_registry_roundtrip_variadic :
+  let s := mkSpec "enum" "enum" [mkAttr "values" KSlice true] "" false false false in
+  hcl_eval [s] (HCall (bs "enum") [AStr (bs "a"); AStr (bs "b")])
+    = Ok {| h_T := bs "enum"; h_attrs := [{| a_K := bs "values"; a_V := AList [bs "a"; bs "b"] |}] |} /\
+  hcl_eval [s] (HCall (bs "enum") []) = Err /\ spec_shape_ok s = true.
+Proof. vm_compute. repeat split; reflexivity. Qed.
